@@ -9,4 +9,4 @@ Extraction "model.ml" anchor
   launch_ref_cmdline launch_ref_argv launch_ref_argv0 launch_ref_list
   join_words join_words_bs
   get_env_var set_env_var get_env_vars ref_get ref_set ref_vars em_put split_eq
-  pobj0 world0 pstep lstep lheld LIdle.
+  pobj0 world0 pstep lstep lheld LIdle seen.
